@@ -162,6 +162,9 @@ func run(c *vh.Ctx) {
 		}
 	}
 
+	// ---- call orders on fresh objects (orders.go) ----
+	r.callOrders()
+
 	// ---- B: fixed GREASE ECH corpus ----
 	r.echCorpus()
 
